@@ -109,7 +109,7 @@ def main():
                      "kind_free_text": "repository-specific static analyser (go/packages + go/types + go/ssa, x/tools v0.29.0): dominance, path, def-use, call-graph, predicate-table and sibling-agreement rules over the type-checked program; never executes dials"}],
         "checks": checks,
         "not_applicable": na,
-        "notes": "All source_commits are unguarded 'fix:' repairs of genuine defects (see known_findings.json and DESIGN.md section 5); there are no instrumentation hooks. Every check re-loads /repo from the working tree on each run; thorough additionally analyses the !go1.19 variant (overlay) and GOARCH=386 and self-tests the rules on seeded breakages via overlays.",
+        "notes": "All source_commits are unguarded 'fix:' repairs of genuine defects (see known_findings.json and DESIGN.md section 4); there are no instrumentation hooks. Every check re-loads /repo from the working tree on each run; thorough additionally analyses the !go1.19 variant (overlay) and GOARCH=386 and self-tests the rules on seeded breakages via overlays.",
     }
     json.dump(m, open("/verif/MANIFEST.json", "w"), indent=1)
     print("claimed:", [c["property_id"] for c in checks], "n/a:", len(na))
